@@ -128,13 +128,10 @@ class C09(props.Prop):
             which = d['which'] or ('cc' if '/binary_cc' in argv[0] else 'main')
             want_args = list(spec.get('cc_args', [])) if which == 'cc' else list(
                 spec.get('cmd_args', []))
-            okbin = argv[0] == ('$SB/ddsmt-TMP/binary_cc' if which == 'cc' else
-                                '$SB/ddsmt-TMP/binary')
             problems = []
-            if not okbin:
-                problems.append(f'executable {argv[0]}')
             if d.get('bin_same') is False:
-                problems.append('copied executable differs from the given one')
+                problems.append(f'executable {argv[0]} is neither the given '
+                                f'command nor the cross-check command')
             if argv[1:-1] != want_args:
                 problems.append(f'arguments {argv[1:-1]} != {want_args}')
             f = argv[-1]
@@ -146,6 +143,11 @@ class C09(props.Prop):
                           'command invoked as ' + ' '.join(argv) + ': ' +
                           '; '.join(problems))
                 break
+        if rec.inv and not cfg['unchecked'] and (
+                rec.inv[0].get('role') or rec.inv[0]['which']) != 'main':
+            v.violate('argv', 'C09:argv:executable',
+                      'the first run (the golden run) did not execute the '
+                      'command under test but ' + ' '.join(rec.inv[0]['argv']))
         first = [d for d in rec.inv if d['which'] == 'main'][:1]
         if first and not first[0]['file'].startswith('$SB/in'):
             v.violate('argv', 'C09:argv:golden-file',
